@@ -4,6 +4,7 @@ from dataclasses import dataclass
 from itertools import count
 from types import CodeType
 
+from . import _verif
 from .mro import sort_types
 from .recode import generate_dependent_dispatch
 from .utils import MISSING, subtler_type
@@ -43,6 +44,8 @@ class TypeMap(dict):
         groups = list(sort_types(obj_t, self.types))
 
         for lvl, grp in enumerate(reversed(groups)):
+            if _verif.ENABLED:
+                grp = _verif.order("typemap.group", grp)
             for cls in grp:
                 handlers = self.entries.get(cls, None)
                 if handlers:
@@ -167,6 +170,9 @@ class MultiTypeMap(dict):
         # other possibilities on all arguments, so the sum of all specificities
         # has to be greater.
         # Note: priority is always more important than specificity
+
+        if _verif.ENABLED:
+            candidates = list(_verif.order("mro.candidates", candidates))
 
         candidates.sort(key=Candidate.sort_key, reverse=True)
 
